@@ -41,6 +41,23 @@ type c02Case struct {
 	// Only: the part / file description (and Content-ID) is given to 0 = every part or file, 1 = only the first one,
 	// 2 = only the last one (the message then has three body parts and two files of each kind)
 	Only int `json:"only,omitempty"`
+	// Multi (generic setters): the field is set with several values — 1 = ("", v), 2 = ("first value", v),
+	// 3 = (v, ""), 4 = ("", "", v, "last"); judged by the differential oracle only (same field names, bodies unchanged)
+	Multi int `json:"multi,omitempty"`
+}
+
+func c02MultiValues(multi int, v string) []string {
+	switch multi {
+	case 1:
+		return []string{"", v}
+	case 2:
+		return []string{"first value", v}
+	case 3:
+		return []string{v, ""}
+	case 4:
+		return []string{"", "", v, "last"}
+	}
+	return []string{v}
 }
 
 // c02GenFields: go-mail's Header constants that have no setter of their own, plus two registered names without constant.
@@ -68,6 +85,10 @@ func c02Build(shape int, b bool, sets [][2]interface{}, late bool, charset strin
 	genField, aliasField := "X-Custom", "X-Alias"
 	if len(menc) > 1 && menc[1] != "" {
 		genField, aliasField = menc[1], menc[1]
+	}
+	multi := 0
+	if len(menc) > 3 && menc[3] != "" {
+		multi = int(menc[3][0] - '0')
 	}
 	only := 0
 	if len(menc) > 2 && menc[2] != "" {
@@ -109,10 +130,10 @@ func c02Build(shape int, b bool, sets [][2]interface{}, late bool, charset strin
 		m.Subject(v)
 	}
 	if v, ok := val(1); ok {
-		m.SetGenHeader(mail.Header(genField), v)
+		m.SetGenHeader(mail.Header(genField), c02MultiValues(multi, v)...)
 	}
 	if v, ok := val(16); ok {
-		m.SetHeader(mail.Header(aliasField), v) // the deprecated alias of SetGenHeader
+		m.SetHeader(mail.Header(aliasField), c02MultiValues(multi, v)...) // the deprecated alias of SetGenHeader
 	}
 	if v, ok := val(2); ok {
 		note(m.FromFormat(v, "sender@snd.example"))
@@ -425,7 +446,7 @@ func c02ExecOne(r *vf.Run, k c02Case) []finding {
 		var serr, werr error
 		pan, pw := vf.Guard(func() {
 			var m *mail.Msg
-			m, serr = c02Build(k.Shape, k.B, s, k.Late, k.Charset, k.MEnc, k.Field, []string{"", "1", "2"}[k.Only])
+			m, serr = c02Build(k.Shape, k.B, s, k.Late, k.Charset, k.MEnc, k.Field, []string{"", "1", "2"}[k.Only], []string{"", "1", "2", "3", "4"}[k.Multi])
 			if serr == nil {
 				_, werr = m.WriteTo(&buf)
 			}
@@ -522,7 +543,7 @@ func c02ExecOne(r *vf.Run, k c02Case) []finding {
 			}
 		}
 	}
-	if len(out) > 0 || k.Setter2 >= 0 || k.Late {
+	if len(out) > 0 || k.Setter2 >= 0 || k.Late || k.Multi != 0 {
 		return out
 	}
 	if k.Charset != "" && bytes.IndexFunc(k.Value, func(r rune) bool { return r >= 128 }) >= 0 {
@@ -789,6 +810,17 @@ func init() {
 							continue
 						}
 						cases = append(cases, c02Case{Setter: s, Value: v, Shape: (vi + fi) % 3, B: (vi+fi)%2 == 0, Setter2: -1, Field: f})
+					}
+				}
+			}
+			// the generic setters with several values, empty ones among them
+			for multi := 1; multi <= 4; multi++ {
+				for _, s := range []int{1, 16} {
+					for vi, v := range vals {
+						if !r.Thorough && vi >= 768 && len(v) > 2 && (vi+s)%4 != multi-1 {
+							continue
+						}
+						cases = append(cases, c02Case{Setter: s, Value: v, Shape: (vi + multi) % 3, B: vi%2 == 0, Setter2: -1, Multi: multi})
 					}
 				}
 			}
